@@ -107,6 +107,58 @@ def run_probes(cfgs):
     return res
 
 
+def ext_rules_check(notes):
+    """compare the model's rule table for external type constructors (FcGen `ext`, `Rule.eval`, and the built-in
+    rules for arrays, tuples, references, raw pointers) with rustc's verdicts (probes/src/bin/ext_rules.rs).
+    returns a list of disagreements"""
+    rc, out, err = sh(["cargo", "run", "-q", "--offline", "--features", "cfg-std,ext-rules", "--bin", "ext_rules",
+                       "--target-dir", os.path.join(PROBES, "target", "std")], cwd=PROBES)
+    if rc != 0:
+        notes.append("ext_rules probe failed to build/run: " + err[-600:])
+        return ["ext_rules probe did not run"]
+    rustc = {}
+    for l in out.splitlines():
+        ws = l.split()
+        if len(ws) == 4:
+            rustc[(ws[0], ws[1])] = (ws[2], ws[3])
+    script = os.path.join(WORK, "c18_rules.lean")
+    open(script, "w").write('''import FcGen.Types
+open Fc.AT Fc.AT.Gen
+def mk : String → Bool × Bool | "B" => (true, true) | "S" => (true, false) | "Y" => (false, true) | _ => (false, false)
+def show1 (name m : String) (t : Ty) : IO Unit := do
+  let r := auto [] ext (fun _ => mk m) 4 t
+  IO.println s!"{name} {m} {if r.1 then 1 else 0} {if r.2 then 1 else 0}"
+def main : IO Unit := do
+  for (name, id) in extNames do
+    for m in ["B", "S", "Y", "N"] do show1 name m (.app id [.neu [0]])
+    show1 name "-" (.app id [])
+  for m in ["B", "S", "Y", "N"] do
+    show1 "array" m (.array (.neu [0]))
+    show1 "tuple" m (.tuple [.neu [0], .prim])
+    show1 "ref" m (.ref (.neu [0]))
+    show1 "refMut" m (.refMut (.neu [0]))
+    show1 "ptr" m .ptr
+''')
+    rc, mout, merr = sh(["lake", "env", "lean", "--run", script], cwd=LEAN)
+    if rc != 0:
+        notes.append("rule table evaluation failed: " + merr[-600:])
+        return ["rule table evaluation did not run"]
+    model = {}
+    for l in mout.splitlines():
+        ws = l.split()
+        if len(ws) == 4:
+            model[(ws[0], ws[1])] = (ws[2], ws[3])
+    bad = []
+    for k, v in rustc.items():
+        if k in model and model[k] != v:
+            bad.append(f"{k[0]}<{k[1]}>: model (Send,Sync)={model[k]} rustc={v}")
+        if k not in model:
+            bad.append(f"{k[0]}<{k[1]}>: not in the model's table")
+    notes.append(f"external-constructor rule table compared with rustc on {len(rustc)} (constructor, marker) pairs: "
+                 f"{len(bad)} disagreements")
+    return bad
+
+
 def first_error(err):
     m = re.search(r"(error(\[E\d+\])?:.*?)(?=\n(?:error|warning)|\Z)", err, flags=re.S)
     return (m.group(1) if m else err)[:3000]
@@ -143,8 +195,11 @@ def main(prop, tier, seed, replay):
             notes.append("listing refused declarations failed: " + e[-500:])
     with chk.lock("cargo"):
         probes = run_probes(["std", "alloc", "nostd"])
+        rule_bad = ext_rules_check(notes) if ok_tr else []
     nprobes, probe_src = count_probes()
     probe_fail = {c: e for c, e in probes.items() if e}
+    if rule_bad:
+        probe_fail["rule-table"] = "error: the model's auto-trait rules for external constructors disagree with rustc:\n" + "\n".join(rule_bad)
 
     rc = 0
     lines = []
